@@ -83,7 +83,8 @@ SpaceModes == {"stretch", "split", "no_change", "error"}
 Reporting == {"silence", "warning", "error"}
 CollModes == {"error", "replace", "merge"}
 
-DoCrop == "crop" \in Ops /\ \E a \in GridT, b \in GridT, m \in (IF recv.kind = "I" THEN CropModes ELSE {"lax"}), z \in BOOLEAN :
+\* windows inside, at the edges of and reaching one unit beyond the grid on either side
+DoCrop == "crop" \in Ops /\ \E a \in (-1)..(N + 1), b \in (-1)..(N + 1), m \in (IF recv.kind = "I" THEN CropModes ELSE {"lax"}), z \in BOOLEAN :
              Call("crop", [a |-> a, b |-> b, mode |-> m, rebase |-> z], Crop(recv, a, b, m, z))
 \* regions inside the span (the property's quantifier), plus degenerate ones
 DoErase == "eraseRegion" \in Ops /\ \E a \in recv.lo..recv.hi, b \in recv.lo..recv.hi,
